@@ -235,6 +235,29 @@ fn canon_line(line: &str) -> String {
     if c[2].is_empty() { c[1].clone() } else { format!("{} {}", c[1], c[2]) }
 }
 
+/// `label|mnemonic operand` (the label column is kept for the labelled listings)
+fn canon_lab(line: &str) -> String {
+    let c = split_cols(line);
+    if c[2].is_empty() { format!("{}|{}", c[0], c[1]) } else { format!("{}|{} {}", c[0], c[1], c[2]) }
+}
+
+/// first `_HEX` in an operand: (text before, value, text after)
+fn label_in(op: &str) -> Option<(String, usize, String)> {
+    let i = op.find('_')?;
+    let rest = &op[i + 1..];
+    let n = rest.bytes().take_while(|c| c.is_ascii_hexdigit()).count();
+    if n == 0 { return None; }
+    Some((op[..i].to_string(), usize::from_str_radix(&rest[..n], 16).ok()?, rest[n..].to_string()))
+}
+/// first `$HEX` in an operand: (text before, value, text after)
+fn number_in(op: &str) -> Option<(String, usize, String)> {
+    let i = op.find('$')?;
+    let rest = &op[i + 1..];
+    let n = rest.bytes().take_while(|c| c.is_ascii_hexdigit()).count();
+    if n == 0 { return None; }
+    Some((op[..i].to_string(), usize::from_str_radix(&rest[..n], 16).ok()?, rest[n..].to_string()))
+}
+
 fn short(s: &str) -> String { s.chars().take(120).collect() }
 
 fn eval_case(ctx: &mut Ctx, tools: &mut Tools, idx: usize, case: &Case) {
@@ -354,6 +377,89 @@ fn eval_case(ctx: &mut Ctx, tools: &mut Tools, idx: usize, case: &Case) {
             Err(site) => ctx.out.oracle(false, "reassembles-or-refuses", &format!("panic:{}", panic_site(&site)), &case.desc(idx)),
         }
     }
+    // ---- labelled listings ("some" = what `a2kit dasm` prints, "all") ----
+    let some = match tools.dasm(bytes, org, p, m8, x8, brk, "some") {
+        Ok(Ok(t)) => t,
+        Ok(Err(e)) => { ctx.out.oracle(false, "disassembles", &format!("c15/{}/dasm-error", pn), &format!("{} labeling=some err={}", case.desc(idx), short(&e))); return; }
+        Err(pn_) => { ctx.out.oracle(false, "disassembles", &format!("panic:{}", panic_site(&pn_)), &format!("{} labeling=some", case.desc(idx))); return; }
+    };
+    let none_lines: Vec<&str> = none.lines().collect();
+    let mut lab_q: Vec<(String, String)> = Vec::new();
+    for (lab, text) in [("some", &some), ("all", &all)] {
+        let lines: Vec<&str> = text.lines().collect();
+        // (1) same lines as the unlabelled listing; an operand printed as a label must name the operand's own value
+        let mut shape_ok = lines.len() == none_lines.len();
+        let mut alias: Option<String> = None;
+        let mut n_lab_operands = 0;
+        if shape_ok {
+            for (l, n) in lines.iter().zip(none_lines.iter()) {
+                let (cl, cn_) = (split_cols(l), split_cols(n));
+                if cl[1] != cn_[1] { shape_ok = false; break; }
+                if cl[2] == cn_[2] { continue; }
+                // the operand differs from the numeric listing: exactly one `_HEX` in place of one `$HEX`
+                match (label_in(&cl[2]), number_in(&cn_[2])) {
+                    (Some((pre_l, lv, post_l)), Some((pre_n, nv, post_n))) if pre_l == pre_n && post_l == post_n => {
+                        n_lab_operands += 1;
+                        // a branch operand is printed with 16 bits in the numeric listing; destinations are <= $FFFF
+                        if lv != nv && alias.is_none() { alias = Some(format!("line={:?} numeric={:?}", canon_line(l), canon_line(n))); }
+                    }
+                    _ => { shape_ok = false; break; }
+                }
+            }
+        }
+        if n_lab_operands > 0 { ctx.out.count(&format!("labelled-operands:{}", lab)); }
+        ctx.out.oracle(shape_ok, "labelled-listing-has-the-same-lines", &format!("c15/{}/labelled-listing-differs", pn),
+            &format!("{} labeling={} text={}", case.desc(idx), lab, short(&text.replace('\n', "/"))));
+        if let Some(a) = &alias {
+            ctx.out.oracle(false, "label-operand-names-the-operand-value", &format!("c15/{}/label-operand-is-another-address", pn),
+                &format!("{} labeling={} {}", case.desc(idx), lab, a));
+        } else { ctx.out.oracle(true, "label-operand-names-the-operand-value", "-", "-"); }
+        // (2) the labelled text through analyzer + assembler, every assembler variant of this processor.  Column-1
+        //     labels alone cannot change a byte, so listings without any label operand are only sampled.
+        let rendered = text.lines().map(canon_lab).collect::<Vec<_>>().join(";");
+        lab_q.push((format!("c15 ldasm {} cur", lab), if rendered.is_empty() { "-".to_string() } else { rendered }));
+        if !(n_lab_operands > 0 || !shape_ok || case.kind.starts_with("label-") || case.kind == "witness" || idx % 8 == 0) { continue; }
+        ctx.out.count(&format!("labelled-reassembly:{}", lab));
+        for v in versions(p) {
+            let cn = cfg_name(p, *v);
+            let full = [header(p, *v, m8, x8), (*text).clone()].concat();
+            let res = tools.asm_full(&full, *v, org, (m8, x8));
+            match &res {
+                Ok(Ok(b)) => {
+                    let pass = b == bytes;
+                    let mut sig = format!("c15/{}/reassembly-differs/labelled/op={:02X}", cn, bytes.first().copied().unwrap_or(0));
+                    if !pass {
+                        let d = b.iter().zip(bytes.iter()).position(|(x, y)| x != y).unwrap_or(b.len().min(bytes.len()));
+                        let mut k = 0;
+                        for (j, a) in addrs.iter().enumerate() { if *a - org <= d { k = j; } }
+                        let op = bytes[addrs[k] - org];
+                        sig = format!("c15/{}/reassembly-differs/labelled/op={:02X}", cn, op);
+                        // the wrong line carries a label operand whose value is not the operand: an alias of a long address
+                        if shape_ok && k < gs.len() {
+                            let lg = groups(text);
+                            if let (Some(gl_), Some(gn)) = (lg.get(k), gs.get(k)) {
+                                if let (Some((_, lv, _)), Some((_, nv, _))) = (label_in(&split_cols(&gl_.first)[2]), number_in(&split_cols(&gn.first)[2])) {
+                                    if lv != nv && nv > 0xffff { sig = format!("c15/{}/reassembly-differs/long-label-alias", cn); }
+                                }
+                            }
+                        }
+                    }
+                    ctx.out.oracle(pass, "labelled-reassembles-or-refuses", &sig,
+                        &format!("{} labeling={} got={} text={}", case.desc(idx), lab, hx(b), short(&text.lines().map(canon_lab).collect::<Vec<_>>().join("/"))));
+                }
+                Ok(Err(e)) => {
+                    ctx.out.count("refused-labelled");
+                    ctx.out.oracle(!pure, "pure-code-reassembles", &format!("c15/{}/reassembly-refused/labelled/op={:02X}", cn, bytes.first().copied().unwrap_or(0)),
+                        &format!("{} labeling={} err={} text={}", case.desc(idx), lab, short(e), short(&text.lines().map(canon_lab).collect::<Vec<_>>().join("/"))));
+                }
+                Err(site) => ctx.out.oracle(false, "labelled-reassembles-or-refuses", &format!("panic:{}", panic_site(site)), &format!("{} labeling={}", case.desc(idx), lab)),
+            }
+            if *v == versions(p)[0] {
+                let a = match &res { Ok(Ok(b)) => hx(b), Ok(Err(_)) => "E".to_string(), Err(_) => "panic".to_string() };
+                lab_q.push((format!("c15 lasm {} cur {}", lab, vname(*v)), a));
+            }
+        }
+    }
     // ---- model tie ----
     let req_tail = format!("{} {}{} {} {:X} {}", pn, m8 as u8, x8 as u8, brk as u8, org, hx(bytes));
     if std::env::var("C15_NO_Q").is_err() {
@@ -362,6 +468,7 @@ fn eval_case(ctx: &mut Ctx, tools: &mut Tools, idx: usize, case: &Case) {
         let spans: Vec<String> = addrs.iter().map(|a| format!("{:X}", a)).collect();
         ctx.out.q(&format!("c15 spans {}", req_tail), &if spans.is_empty() { "-".to_string() } else { spans.join(",") });
         ctx.out.q(&format!("c15 rt {}", req_tail), &if per_line.is_empty() { "-".to_string() } else { per_line.join(",") });
+        for (head, ans) in &lab_q { ctx.out.q(&format!("{} {}", head, req_tail), ans); }
     }
 }
 
@@ -458,6 +565,57 @@ fn gen_cases(ctx: &Ctx, tools: &Tools) -> Vec<Case> {
                   vec![0x44, 0x7B, 0x28, 0x82, 0x00, 0x00], vec![0x54, 0x01, 0x02, 0x62, 0x10, 0x00], vec![0x44, 0x00, 0x00, 0xD0, 0x05, 0xEA],
                   vec![0x54, 0x01, 0x02, 0x54, 0x03, 0x04, 0x10, 0xF8]] {
             cases.push(Case { p, m8: true, x8: true, brk: false, org: 0x300, bytes: b, kind: "witness" });
+        }
+    }
+    // (L) planted label aliases: 65802/65816 programs with labelled lines at known addresses (first line, a branch
+    //     target) and long-operand instructions whose bank is 0 / the program bank / another bank and whose low 16
+    //     bits are a labelled address, a labelled address +-1, a line that only "all" labels, or nothing
+    let long_ops: Vec<u8> = (0..16u8).map(|h| (h << 4) | 0x0F).chain([0x5C, 0x22]).collect();
+    let mut k = 0usize;
+    for p in [Proc::P65816, Proc::P65802] {
+        for org in [0x0300usize, 0x8000, 0x2000, 0xFFE0, 0x012000] {
+            for &lop in &long_ops {
+                for bank_class in 0..4usize {
+                    for low_class in 0..6usize {
+                        k += 1;
+                        // thin the product deterministically in the quick tier; every (opcode, bank class, low class) is kept
+                        if !ctx.tier_thorough && (k + lop as usize + org / 0x100) % 3 != 0 && org != 0x8000 { continue; }
+                        let (m8, x8) = match k % 4 { 0 => (true, true), 1 => (false, true), 2 => (true, false), _ => (false, false) };
+                        let l1 = org + if m8 { 2 } else { 3 };
+                        let pbank = (org >> 16) as u32;
+                        let bank: u32 = match bank_class { 0 => 0, 1 => pbank, 2 => if pbank == 1 { 2 } else { 1 }, _ => [0x7Eu32, 0xFF, 0x02, 0xE0][k % 4] };
+                        let low: u32 = (match low_class { 0 => org, 1 => l1, 2 => l1 + 1, 3 => l1 - 1, 4 => l1 + 4, _ => 0x1234 } & 0xffff) as u32;
+                        let bank2: u32 = [0u32, 1, 0x7E, pbank][(k / 4) % 4];
+                        let low2: u32 = ([org, l1, l1 + 7, 0x4321][(k / 16) % 4] & 0xffff) as u32;
+                        let mut b: Vec<u8> = vec![0xA9, 0x00];
+                        if !m8 { b.push(0x00); }
+                        b.push(lop); b.extend(le(low | (bank << 16), 3));
+                        b.push(0xE8);
+                        b.extend_from_slice(&[0xD0, 0xF9]);
+                        b.push(if k % 2 == 0 { 0x22 } else { 0x5C }); b.extend(le(low2 | (bank2 << 16), 3));
+                        b.push(0x60);
+                        cases.push(Case { p, m8, x8, brk: false, org, bytes: b, kind: "label-alias" });
+                    }
+                }
+            }
+        }
+    }
+    // (L2) labels against 8 and 16 bit operands: a program in the zero page, absolute operands that equal labelled
+    //      lines, the same low word in another bank, a range that crosses from bank 0 into bank 1 (24 bit labels)
+    for p in PROCS {
+        for (org, body) in [
+            (0x0010usize, vec![0xA5u8, 0x10, 0xAD, 0x10, 0x00, 0xA5, 0x12, 0x4C, 0x12, 0x00, 0x60]),
+            (0x0300, vec![0xAD, 0x00, 0x03, 0x4C, 0x03, 0x03, 0x20, 0x06, 0x03, 0xD0, 0xF5, 0x60]),
+            (0x0300, vec![0xA2, 0x00, 0xBD, 0x02, 0x03, 0x9D, 0x0B, 0x03, 0xE8, 0xD0, 0xF7, 0x60, 0x6C, 0x00, 0x03]),
+            (0xFFF8, vec![0xAD, 0xF8, 0xFF, 0x4C, 0xFB, 0xFF, 0xEA, 0xEA, 0xEA, 0xEA, 0x60]),
+        ] {
+            cases.push(Case { p, m8: true, x8: true, brk: false, org, bytes: body.clone(), kind: "label-abs" });
+            if matches!(p, Proc::P65802 | Proc::P65816) {
+                let mut b = body.clone();
+                b.extend_from_slice(&[0xAF, (org & 0xff) as u8, (org >> 8) as u8, 0x00, 0xAF, (org & 0xff) as u8, (org >> 8) as u8, 0x01,
+                    0xBF, ((org + 2) & 0xff) as u8, ((org + 2) >> 8) as u8, 0xFF, 0x82, 0x00, 0x00, 0x62, 0xF0, 0xFF]);
+                cases.push(Case { p, m8: false, x8: false, brk: false, org, bytes: b, kind: "label-abs" });
+            }
         }
     }
     // (E) random pure code (all valid instructions), random code/data mixtures, random bytes
